@@ -14,7 +14,7 @@ def main():
             "print(json.dumps({'status': r['status'], 'bad': [o['id']+':'+o['status'] for o in r['obligations'] if o['status']!='discharged'][:3], 'n': len(r['obligations']), 'detail': r.get('detail','')[:150]}))")
     procs = []
     for kind, idx in sites:
-        env = dict(os.environ, PYVC_MUTATE=f"{qual}::{kind}:{idx}", PYVC_TIMEOUT_MS="4000", PYVC_NO_PORTFOLIO="1", PYVC_STOP_FIRST="1")
+        env = dict(os.environ, PYVC_MUTATE=f"{qual}::{kind}:{idx}", PYVC_TIMEOUT_MS="10000", PYVC_NO_PORTFOLIO="1", PYVC_STOP_FIRST="1", PYVC_NO_RETRY="1")
         procs.append(((kind, idx), subprocess.Popen([sys.executable, "-c", code, task], env=env, stdout=subprocess.PIPE, stderr=subprocess.DEVNULL, text=True)))
         if len(procs) >= 14:
             _drain(procs)
